@@ -1013,6 +1013,23 @@ def _stretched(molecule):
     return molecule
 
 
+def _served_before(processor, build):
+    """A molecule object that has been through the processor once, in another conformation, and was then put back into
+    its initial state (same object, same node keys): what the processor computes for it now must come from its present
+    coordinates and content, nothing may be remembered per object or per node key."""
+    molecule = _stretched(build())
+    try:
+        processor.run_molecule(molecule)
+    except Exception:  # pylint: disable=broad-except
+        pass    # the same input is judged by the caller
+    fresh = build()
+    molecule.__dict__.clear()
+    molecule.__dict__.update(fresh.__dict__)
+    for cached_view in ('nodes', 'edges', 'adj', 'degree'):
+        molecule.__dict__.pop(cached_view, None)
+    return molecule
+
+
 def _run_toy(case):
     force_field, text = build_force_field(case)
     detail = None
@@ -1024,12 +1041,7 @@ def _run_toy(case):
     used_before = len(case['mol']['nodes']) % 2 == 0
     if used_before:
         # the processor object and the force field (its links) have served a molecule before: the same one, built again
-        try:
-            processor.run_molecule(_stretched(build_molecule(case['mol'], force_field)))
-        except Exception:  # pylint: disable=broad-except
-            pass    # the same input is judged below
-        # the warm-up molecule is gone by now; a molecule object built afterwards may well sit at its address
-        molecule = build_molecule(case['mol'], force_field)
+        molecule = _served_before(processor, lambda: build_molecule(case['mol'], force_field))
     result = processor.run_molecule(molecule)
     model, reports = ref.apply_links(case['mol'], case['links'])
     justified = set()
@@ -1286,11 +1298,7 @@ def _run_shipped(case):
     molecule = build_molecule(mol, data['ff'])
     processor = do_links.DoLinks()
     if len(mol['nodes']) % 2 == 0:
-        try:
-            processor.run_molecule(_stretched(build_molecule(mol, data['ff'])))
-        except Exception:  # pylint: disable=broad-except
-            pass    # the same input is judged below
-        molecule = build_molecule(mol, data['ff'])
+        molecule = _served_before(processor, lambda: build_molecule(mol, data['ff']))
     result = processor.run_molecule(molecule)
     model = ref.Model(mol)
     reports = []
